@@ -245,3 +245,43 @@ Proof.
   rewrite pieces_tokens. cbn [rev]. destruct (tokens_acc_spec l Hok) as [_ [_ H3]]. rewrite H3.
   now apply seg_tokens_strip.
 Qed.
+
+(* the split the '..' branch performs on the found path (no strip): same tokens *)
+Lemma raw_tokens_rendered l : segs_ok l ->
+  filter nonempty (split_chr c_slash (replace (s_root ++ render_segs l) [c_rb; c_lb] [c_rb; c_slash; c_lb])) = seg_tokens l.
+Proof.
+  intros Hok. unfold split_chr.
+  change (replace (s_root ++ render_segs l) [c_rb; c_lb] [c_rb; c_slash; c_lb])
+    with (replace_aux (length (s_root ++ render_segs l)) (s_root ++ render_segs l) old_ new_).
+  rewrite (split_replace _ (s_root ++ render_segs l) [] false); [|lia|discriminate].
+  unfold s_root. cbn [app split2]. replace (N.eqb c_slash c_slash) with true by reflexivity.
+  rewrite split2_segs by assumption. cbn [rev filter nonempty].
+  rewrite pieces_tokens. cbn [rev]. now destruct (tokens_acc_spec l Hok) as [_ [_ H3]].
+Qed.
+
+Lemma seg_tokens_snoc_key : forall n l k, length l <= n -> seg_tokens (l ++ [SK k]) = seg_tokens l ++ [k].
+Proof.
+  induction n as [|n IH]; intros l k Hlen.
+  - destruct l; [reflexivity|cbn in Hlen; lia].
+  - destruct l as [|[k0|z0] r]; [reflexivity| |].
+    + destruct r as [|[k1|z1] r'].
+      * reflexivity.
+      * cbn [app seg_tokens]. f_equal. apply (IH (SK k1 :: r')). cbn in *; lia.
+      * cbn [app seg_tokens]. f_equal. apply IH. cbn in *; lia.
+    + cbn [app seg_tokens]. f_equal. apply IH. cbn in *; lia.
+Qed.
+
+Lemma seg_tokens_length : forall n l, length l <= n -> length (seg_tokens l) <= length l.
+Proof.
+  induction n as [|n IH]; intros l Hlen.
+  - destruct l; [cbn; lia|cbn in Hlen; lia].
+  - destruct l as [|[k0|z0] r]; [cbn; lia| |].
+    + destruct r as [|[k1|z1] r'].
+      * cbn; lia.
+      * cbn [seg_tokens length]. specialize (IH (SK k1 :: r') ltac:(cbn in *; lia)). cbn in *; lia.
+      * cbn [seg_tokens length]. specialize (IH r' ltac:(cbn in *; lia)). cbn in *; lia.
+    + cbn [seg_tokens length]. specialize (IH r ltac:(cbn in *; lia)). lia.
+Qed.
+
+Lemma segs_ok_app a b : segs_ok a -> segs_ok b -> segs_ok (a ++ b).
+Proof. unfold segs_ok. intros. apply Forall_app. auto. Qed.
